@@ -1,6 +1,7 @@
 import SaphyrVerif.Lemmas.C16
 import SaphyrVerif.Lemmas.C16Merge
 import SaphyrVerif.Lemmas.C16Norm
+import SaphyrVerif.Lemmas.C16Static
 /-!
 # C16 — reported locations are consistent with the input and name the right node
 
@@ -554,6 +555,117 @@ theorem error_location_nested (e : DErr) (ref l r' d' : Loc) (hk : e.kind ≠ "A
   rw [h1, h0]
   exact ⟨rfl, by simp [errLocations]⟩
 
+/-! ## Part C: errors that Serde raises without a location (the fallback location) -/
+
+/-- (T) a location-less Serde error raised while a SEQUENCE ELEMENT is read (`SA::next_element_seed`): the
+access hands on the static constructor's error on ITS OWN use site (`c1.refLoc`, the element guard), wrapped
+by `attach_alias_locations_if_missing` with the element's (use site, definition site) — the pair
+`spannedLocs` reports for a span-carrying value at that element.  The cell of the enclosing deserialization
+plays no role (the access has no such argument). -/
+theorem static_error_at_seq_element (fuel : Nat) (cfg : Cfg) (t : STy) (c c1 c2 : Cur) (ev : Ev) (acc : List SVal)
+    (kind : String) (hpk : c.peek = .ok (some ev) c1) (hne : ∀ l, ev ≠ .seqEnd l)
+    (hs : RaisesStatic fuel cfg t c1 kind c2) :
+    seqElemsS (fuel + 1) cfg t c acc = .err (attachAlias (staticErr kind (some c1.refLoc)) c1.refLoc ev.loc) c2 ∧
+    spannedLocs c = .ok (c1.refLoc, ev.loc) c1 := by
+  refine ⟨?_, by simp only [spannedLocs, hpk]⟩
+  simp only [seqElemsS, hpk]
+  cases ev <;> first | exact absurd rfl (hne _) | simp only [hs (some c1.refLoc)]
+
+/-- (T) the same for a MAPPING VALUE read from the live stream (`MA::next_value_seed`, value guard — the
+repair of `C16-static-error-at-map-value-reported-at-key`): the value's own use site `c1.refLoc`, not the key. -/
+theorem static_error_at_map_value (fuel : Nat) (cfg : Cfg) (t : STy) (c c1 c2 : Cur) (m : MA) (pk : Option Ev)
+    (kind : String) (hk : m.haveKey = true) (hp : m.pendingValue = none) (hpk : c.peek = .ok pk c1)
+    (hs : RaisesStatic fuel cfg t c1 kind c2) :
+    let defined := match pk with | some e => e.loc | none => c1.lastLoc
+    nextValueS (fuel + 1) cfg t c m = .err (attachAlias (staticErr kind (some c1.refLoc)) c1.refLoc defined) c2 ∧
+    spannedLocs c = .ok (c1.refLoc, defined) c1 := by
+  refine ⟨?_, by cases pk <;> simp only [spannedLocs, hpk]⟩
+  cases pk <;> simp [nextValueS, hk, hp, hpk, hs (some c1.refLoc)]
+
+/-- (T) the same for a mapping value delivered from a pending entry (merge-derived or buffered:
+`ReplayEvents::with_reference(events, reference_location)`): the entry's recorded use site `ref` — by
+`merge_source_entries_ref` / `merge_map_entries_ref` / `merge_seq_element_ref` the alias token of `<<: *m`, the
+element of `<<: [*a, *b]`, the start of an inline mapping — and the source node's own location. -/
+theorem static_error_at_merged_value (fuel : Nat) (cfg : Cfg) (t : STy) (c rc2 : Cur) (m : MA) (ev : Ev) (evs : List Ev)
+    (ref : Loc) (kind : String) (hk : m.haveKey = true) (hp : m.pendingValue = some (ev :: evs, ref))
+    (hs : RaisesStatic fuel cfg t (.replay (ev :: evs) 0 (some ref)) kind rc2) :
+    nextValueS (fuel + 1) cfg t c m = .err (attachAlias (staticErr kind (some ref)) ref ev.loc) c ∧
+    spannedLocs (.replay (ev :: evs) 0 (some ref)) = .ok (ref, ev.loc) (.replay (ev :: evs) 0 (some ref)) := by
+  refine ⟨?_, by simp only [spannedLocs, Cur.peek, Cur.refLoc, List.getElem?_cons_zero]⟩
+  simp only [nextValueS, hk, hp, hs (some ref)]
+  simp
+
+/-- (T) **static_error_at_value_node**: the location attached to a location-less Serde error raised while a
+sequence element or a mapping value (live, or merged / buffered) is read is the use-site location of THAT
+node — through an alias or a merge the alias token / merge entry, with the node's own location as definition
+site: `Error::locations()` of the access's error is exactly the pair `(referenced, defined)` that a
+span-carrying value at the node reports (`spannedLocs`), and `Error::location()` is the use site.
+(`kind ≠ "AliasError"`: the five static constructors; both locations known.)  Nothing of the enclosing
+deserialization — the key guard, the container guard, an outer element — enters. -/
+theorem static_error_at_value_node (fuel : Nat) (cfg : Cfg) (t : STy) (kind : String) (hkind : kind ≠ "AliasError") :
+    -- sequence element
+    (∀ (c c1 c2 : Cur) (ev : Ev) (acc : List SVal), c.peek = .ok (some ev) c1 → (∀ l, ev ≠ .seqEnd l) →
+      RaisesStatic fuel cfg t c1 kind c2 → c1.refLoc ≠ 0 → ev.loc ≠ 0 →
+      ∃ e, seqElemsS (fuel + 1) cfg t c acc = .err e c2 ∧ spannedLocs c = .ok (c1.refLoc, ev.loc) c1 ∧
+        errLocations e = some (c1.refLoc, ev.loc) ∧ e.loc = c1.refLoc) ∧
+    -- mapping value, live
+    (∀ (c c1 c2 : Cur) (m : MA) (ev : Ev), m.haveKey = true → m.pendingValue = none → c.peek = .ok (some ev) c1 →
+      RaisesStatic fuel cfg t c1 kind c2 → c1.refLoc ≠ 0 → ev.loc ≠ 0 →
+      ∃ e, nextValueS (fuel + 1) cfg t c m = .err e c2 ∧ spannedLocs c = .ok (c1.refLoc, ev.loc) c1 ∧
+        errLocations e = some (c1.refLoc, ev.loc) ∧ e.loc = c1.refLoc) ∧
+    -- mapping value from a pending (merged / buffered) entry
+    (∀ (c rc2 : Cur) (m : MA) (ev : Ev) (evs : List Ev) (ref : Loc), m.haveKey = true →
+      m.pendingValue = some (ev :: evs, ref) → RaisesStatic fuel cfg t (.replay (ev :: evs) 0 (some ref)) kind rc2 →
+      ref ≠ 0 → ev.loc ≠ 0 →
+      ∃ e, nextValueS (fuel + 1) cfg t c m = .err e c ∧
+        spannedLocs (.replay (ev :: evs) 0 (some ref)) = .ok (ref, ev.loc) (.replay (ev :: evs) 0 (some ref)) ∧
+        errLocations e = some (ref, ev.loc) ∧ e.loc = ref) := by
+  refine ⟨?_, ?_, ?_⟩
+  · intro c c1 c2 ev acc hpk hne hs href hdef
+    obtain ⟨h1, h2⟩ := static_error_at_seq_element fuel cfg t c c1 c2 ev acc kind hpk hne hs
+    obtain ⟨h3, h4⟩ := static_locations kind hkind c1.refLoc ev.loc href hdef
+    exact ⟨_, h1, h2, h3, h4⟩
+  · intro c c1 c2 m ev hk hp hpk hs href hdef
+    obtain ⟨h1, h2⟩ := static_error_at_map_value fuel cfg t c c1 c2 m (some ev) kind hk hp hpk hs
+    obtain ⟨h3, h4⟩ := static_locations kind hkind c1.refLoc ev.loc href hdef
+    exact ⟨_, h1, h2, h3, h4⟩
+  · intro c rc2 m ev evs ref hk hp hs href hdef
+    obtain ⟨h1, h2⟩ := static_error_at_merged_value fuel cfg t c rc2 m ev evs ref kind hk hp hs
+    obtain ⟨h3, h4⟩ := static_locations kind hkind ref ev.loc href hdef
+    exact ⟨_, h1, h2, h3, h4⟩
+
+/-- (T) the instance the repair is about: a `NonZero*` target on a node whose integer reading is 0
+(`invalid_value`), directly or inside the span-carrying wrapper, satisfies the hypothesis of
+`static_error_at_value_node`. -/
+theorem nonzero_zero_raises_static (fuel : Nat) (cfg : Cfg) (signed : Bool) (bits : Nat) (c c2 : Cur)
+    (h : deser (fuel + 1) cfg (.int signed bits) false false c = .ok (.int 0) c2) :
+    RaisesStatic (fuel + 1) cfg (.nonzero signed bits) c "invalid_value" c2 ∧
+    (∀ c0 rd, spannedLocs c0 = .ok rd c →
+      RaisesStatic (fuel + 2) cfg (.spanned (.nonzero signed bits)) c0 "invalid_value" c2) :=
+  ⟨raisesStatic_nonzero fuel cfg signed bits c c2 h,
+   fun c0 rd hl => raisesStatic_spanned (fuel + 1) cfg _ c0 c c2 _ rd hl (raisesStatic_nonzero fuel cfg signed bits c c2 h)⟩
+
+/-- (T) once located at the node, the error is left alone by every enclosing access whose own container is
+not reached through an alias (`r' = d'`, or one of the two unknown).  (Inside a replayed container the
+innermost access already sees use site ≠ definition site and has built the `AliasError`, which no enclosing
+access changes: `alias_error_survives_outer_access`, `error_location_nested` — the same composition as for
+type errors.) -/
+theorem static_error_survives_outer_access (e : DErr) (r' d' : Loc) (hl : e.loc ≠ 0)
+    (h : r' = 0 ∨ d' = 0 ∨ r' = d') : attachAlias e r' d' = e := by
+  unfold attachAlias
+  by_cases hk : (e.kind == "AliasError") = true
+  · simp [hk]
+  · rcases h with h | h | h <;> simp [hk, h, hl]
+
+/-- (T) the bridge to the thread-local model of C15 (`Model/Tls.lean`): while the body of a scoped guard runs
+— the element guard, the value guard: `Tls.Prog.guard loc body k`, the `G` of the call scripts — the cell
+holds the guard's location, whatever it held before (`s`, `st` arbitrary); a static constructor called there
+yields the location of `staticErr kind (some loc)`: the `fb` that `seqElemsS` / `nextValueS` hand to `deserS`
+is the cell of the thread-local model. -/
+theorem cell_under_guard_is_fb (loc : Loc) (k : Tls.Prog) (s : Tls.Slot) (st : Tls.St) (kind : String) :
+    (Tls.exec (.guard loc .serr k) s st).1 = .err (staticErr kind (some loc)).loc := by
+  simp [Tls.exec, Tls.andThen, staticErr]
+
 /-! ## Non-vacuity -/
 
 -- marks of a text with a multi-byte character and a CRLF break are positions of it; the conversion is exact
@@ -621,22 +733,22 @@ def outcome (r : R SVal) : List Nat :=
   | .err e _ => 1 :: e.loc :: e.loc2 :: e.kind.toList.map Char.toNat
 
 -- through the alias `*a` (at 17): `referenced` = the alias token, `defined` = each element's own location
-example : outcome (deserS 40 {} aliasTy (.live aliasPump (aliasDoc "2"))) =
+example : outcome (deserS 40 {} none aliasTy (.live aliasPump (aliasDoc "2"))) =
     0 :: digestS (.struct [("j", .seq [.spanned 17 13 (.leaf (.int 1)), .spanned 17 14 (.leaf (.int 2))])]) := by
   decide +kernel
 -- at the definition itself: `referenced = defined`
-example : outcome (deserS 40 {} (.struct [("k", .seq (.spanned (.leaf (.int true 32))))]) (.live aliasPump (aliasDoc "2"))) =
+example : outcome (deserS 40 {} none (.struct [("k", .seq (.spanned (.leaf (.int true 32))))]) (.live aliasPump (aliasDoc "2"))) =
     0 :: digestS (.struct [("k", .seq [.spanned 13 13 (.leaf (.int 1)), .spanned 14 14 (.leaf (.int 2))])]) := by
   decide +kernel
 -- an aliased scalar leaf that does not fit the type: `AliasError` with both locations (those of the wrapper)
-example : outcome (deserS 40 {} (.struct [("j", .spanned (.leaf (.int true 32)))]) (.live aliasPump
+example : outcome (deserS 40 {} none (.struct [("j", .spanned (.leaf (.int true 32)))]) (.live aliasPump
     [.ev .streamStart 10, .ev (.docStart false) 10, .ev (.mapStart 0 none) 10,
      .ev (.scalar ['k'] .plain 0 none) 11, .ev (.scalar "oops".toList .plain 1 none) 12,
      .ev (.scalar ['j'] .plain 0 none) 16, .ev (.alias 1) 17, .ev .mapEnd 18, .ev .docEnd 18, .ev .streamEnd 18])) =
     1 :: 17 :: 12 :: "AliasError".toList.map Char.toNat := by decide +kernel
 -- `t: {<<: *m, z: 3}` with `m = {k: 1}` at 12..15, the alias at 19: merged `k` is referenced at the alias
 -- token and defined at its own scalar (14); the own entry `z` has both at 21
-example : outcome (deserS 60 {} (.struct [("t", .map (.spanned (.leaf (.int true 32))))]) (.live aliasPump
+example : outcome (deserS 60 {} none (.struct [("t", .map (.spanned (.leaf (.int true 32))))]) (.live aliasPump
     [.ev .streamStart 10, .ev (.docStart false) 10, .ev (.mapStart 0 none) 10,
      .ev (.scalar ['s'] .plain 0 none) 11, .ev (.mapStart 1 none) 12, .ev (.scalar ['k'] .plain 0 none) 13,
      .ev (.scalar ['1'] .plain 0 none) 14, .ev .mapEnd 15,
@@ -647,8 +759,60 @@ example : outcome (deserS 60 {} (.struct [("t", .map (.spanned (.leaf (.int true
   decide +kernel
 
 -- a leaf inside the aliased sequence that does not fit: use site = the alias token, definition site = the LEAF
-example : outcome (deserS 40 {} aliasTy (.live aliasPump (aliasDoc "oops"))) =
+example : outcome (deserS 40 {} none aliasTy (.live aliasPump (aliasDoc "oops"))) =
     1 :: 17 :: 14 :: "AliasError".toList.map Char.toNat := by decide +kernel
+
+/-! ### the fallback location (Part C) on witnesses -/
+
+/-- `a: 1` / `k:   <second>` as parser items: key `k` at 13, its value at 14 -/
+def nzDoc (second : String) : List RawItem :=
+  [.ev .streamStart 10, .ev (.docStart false) 10, .ev (.mapStart 0 none) 10,
+   .ev (.scalar ['a'] .plain 0 none) 11, .ev (.scalar ['1'] .plain 0 none) 12,
+   .ev (.scalar ['k'] .plain 0 none) 13, .ev (.scalar second.toList .plain 0 none) 14,
+   .ev .mapEnd 15, .ev .docEnd 15, .ev .streamEnd 15]
+
+/-- `struct { a: u8, k: NonZeroU8 }` -/
+def nzTy : STy := .struct [("a", .leaf (.int false 8)), ("k", .nonzero false 8)]
+
+-- the witness of the finding: `invalid_value` for `k:   0` is located at the VALUE (14), not at the key (13)
+example : outcome (deserS 40 {} none nzTy (.live aliasPump (nzDoc "0"))) =
+    1 :: 14 :: 0 :: "invalid_value".toList.map Char.toNat := by decide +kernel
+-- also inside the span-carrying wrapper and `Option`; a non-zero value is delivered
+example : outcome (deserS 40 {} none (.struct [("k", .spanned (.option (.nonzero false 8)))]) (.live aliasPump (nzDoc "0"))) =
+    1 :: 14 :: 0 :: "invalid_value".toList.map Char.toNat := by decide +kernel
+example : outcome (deserS 40 {} none nzTy (.live aliasPump (nzDoc "7"))) =
+    0 :: digestS (.struct [("a", .leaf (.int 1)), ("k", .leaf (.int 7))]) := by decide +kernel
+-- a sequence element: the element (14); through the alias `*a` (17): alias token and the element's own location
+example : outcome (deserS 40 {} none (.struct [("k", .seq (.nonzero false 8))]) (.live aliasPump (aliasDoc "0"))) =
+    1 :: 14 :: 0 :: "invalid_value".toList.map Char.toNat := by decide +kernel
+example : outcome (deserS 40 {} none (.struct [("j", .seq (.nonzero false 8))]) (.live aliasPump (aliasDoc "0"))) =
+    1 :: 17 :: 14 :: "AliasError".toList.map Char.toNat := by decide +kernel
+-- a mapping value that is an alias (`a: &z 0` at 12, `k: *z` at 14): alias token and anchored scalar
+example : outcome (deserS 40 {} none nzTy (.live aliasPump
+    [.ev .streamStart 10, .ev (.docStart false) 10, .ev (.mapStart 0 none) 10,
+     .ev (.scalar ['a'] .plain 0 none) 11, .ev (.scalar ['0'] .plain 1 none) 12,
+     .ev (.scalar ['k'] .plain 0 none) 13, .ev (.alias 1) 14, .ev .mapEnd 15, .ev .docEnd 15, .ev .streamEnd 15])) =
+    1 :: 14 :: 12 :: "AliasError".toList.map Char.toNat := by decide +kernel
+-- a merged value (`s: &m {k: 0}` with the 0 at 14, `t: {<<: *m, z: 3}` with the alias at 19): merge entry and source node
+example : outcome (deserS 60 {} none (.struct [("t", .map (.nonzero false 8))]) (.live aliasPump
+    [.ev .streamStart 10, .ev (.docStart false) 10, .ev (.mapStart 0 none) 10,
+     .ev (.scalar ['s'] .plain 0 none) 11, .ev (.mapStart 1 none) 12, .ev (.scalar ['k'] .plain 0 none) 13,
+     .ev (.scalar ['0'] .plain 0 none) 14, .ev .mapEnd 15,
+     .ev (.scalar ['t'] .plain 0 none) 16, .ev (.mapStart 0 none) 17, .ev (.scalar "<<".toList .plain 0 none) 18,
+     .ev (.alias 1) 19, .ev (.scalar ['z'] .plain 0 none) 20, .ev (.scalar ['3'] .plain 0 none) 21, .ev .mapEnd 22,
+     .ev .mapEnd 23, .ev .docEnd 23, .ev .streamEnd 23])) =
+    1 :: 19 :: 14 :: "AliasError".toList.map Char.toNat := by decide +kernel
+-- a top-level call has no guard of its own: no location at all (`from_str::<NonZeroU8>("0")`, C15 `callNonZero`)
+example : outcome (deserS 40 {} none (.nonzero false 8) (.live aliasPump
+    [.ev .streamStart 10, .ev (.docStart false) 10, .ev (.scalar ['0'] .plain 0 none) 11, .ev .docEnd 12, .ev .streamEnd 12])) =
+    1 :: 0 :: 0 :: "invalid_value".toList.map Char.toNat := by decide +kernel
+
+/-- the hypotheses of `static_error_at_value_node` (mapping value, live) on a concrete cursor: the value of `k`
+in a replayed `{k: 0}` whose use site is 19 -/
+def nzCur : Cur := .replay [.scalar ['0'] 0 none .plain 0 14, .mapEnd 15] 0 (some 19)
+example : RaisesStatic 3 {} (.nonzero false 8) nzCur "invalid_value" (.replay [.scalar ['0'] 0 none .plain 0 14, .mapEnd 15] 1 (some 19)) :=
+  raisesStatic_nonzero 2 {} false 8 _ _ (by rfl)
+example : nzCur.peek = .ok (some (.scalar ['0'] 0 none .plain 0 14)) nzCur ∧ nzCur.refLoc = 19 := ⟨rfl, rfl⟩
 
 #print axioms location_chars_consistent
 #print axioms location_bytes_absent_or_exact
@@ -674,5 +838,12 @@ example : outcome (deserS 40 {} aliasTy (.live aliasPump (aliasDoc "oops"))) =
 #print axioms location_fields_consistent_in_memory
 #print axioms alias_error_survives_outer_access
 #print axioms error_location_nested
+#print axioms static_error_at_seq_element
+#print axioms static_error_at_map_value
+#print axioms static_error_at_merged_value
+#print axioms static_error_at_value_node
+#print axioms nonzero_zero_raises_static
+#print axioms static_error_survives_outer_access
+#print axioms cell_under_guard_is_fb
 
 end SaphyrVerif.Props.C16
